@@ -71,7 +71,7 @@ fn run_gadget(ctx: &mut Ctx) {
     let (n_random, n_mut) = match ctx.tier.as_str() {
         "quick" => (10, 6),
         "thorough" => (60, 16),
-        _ => (20, 10),
+        _ => (20, 8),
     };
     for (i, (fp, extra_k)) in shapes.iter().enumerate() {
         gadget::run_light(ctx, &mut setup, fp, *extra_k, 500 + i as u64, n_mut);
@@ -82,12 +82,17 @@ fn run_gadget(ctx: &mut Ctx) {
         gadget::run_light(ctx, &mut setup, &fp, extra_k, 600 + i as u64, n_mut);
     }
     // (H1) altered advice values inside the verifier circuit
-    gadget::tamper_light(ctx, &mut setup, &shapes[1].0, 650, if ctx.quick() { 12 } else { 120 });
+    let n_tamper = match ctx.tier.as_str() {
+        "quick" => 12,
+        "thorough" => 150,
+        _ => 40,
+    };
+    gadget::tamper_light(ctx, &mut setup, &shapes[1].0, 650, n_tamper);
     // foreign-curve back-end (big circuits)
     let n_foreign = match ctx.tier.as_str() {
         "quick" => 2,
         "thorough" => shapes.len(),
-        _ => 2,
+        _ => 1,
     };
     for (i, (fp, extra_k)) in shapes.iter().take(n_foreign).enumerate() {
         gadget::run_foreign(ctx, &mut setup, fp, *extra_k, 700 + i as u64, 18, if ctx.quick() { 2 } else { 4 });
@@ -99,7 +104,7 @@ fn run_ipa(ctx: &mut Ctx) {
     let (sizes, reps, sweep): (Vec<usize>, usize, usize) = match ctx.tier.as_str() {
         "quick" => (vec![1, 2, 4, 8, 16, 32, 64], 1, 8),
         "thorough" => (vec![1, 2, 4, 8, 16, 32, 64, 128, 256, 512, 1024], 3, 16),
-        _ => (vec![1, 2, 4, 8, 16, 32, 64], 2, 64),
+        _ => (vec![1, 2, 4, 8, 16, 32, 64], 1, 32),
     };
     for rep in 0..reps {
         for &n in &sizes {
@@ -136,7 +141,11 @@ fn main() {
     }
     if only.as_deref().map_or(true, |o| o == "agg") {
         // LightAggregator through its public API, k = 1, 2, 3 inner proofs
-        let nc = if ctx.quick() { 1 } else { 4 };
+        let nc = match ctx.tier.as_str() {
+            "quick" => 1,
+            "thorough" => 4,
+            _ => 2,
+        };
         // regression first: one inner proof (the Lagrange-basis slice kept by `init` was too short)
         aggregator::run::<1>(&mut ctx, false, 15, 901, nc);
         aggregator::run::<2>(&mut ctx, false, 15, 902, nc);
